@@ -484,5 +484,30 @@ def wide_enumeration(backend):
                 r = c.let(a, u)
                 if (r == c.true) != bool(sem(a)) and len(fails) < 6:
                     fails.append(dict(name='let(values) on wide variables', formula=fml, values=str(a), backend=backend))
+        # renaming between two wide variables of the same type hint, and priming of a wide
+        # variable in an automaton: bit i goes to bit i
+        import omega.symbolic.temporal as trl_
+        c2 = fol.Context()
+        a2 = trl_.Automaton()
+        if backend == 'autoref':
+            c2.bdd = autoref.BDD()
+            a2.bdd = autoref.BDD()
+        c2.declare(x=(0, 2047), w=(0, 2047))
+        a2.declare_variables(x=(0, 2047))
+        for vals in ([4, 6, 1024, 2047], [1030], [2, 10, 11, 512, 1536]):
+            n += 1
+            fml = ' \\/ '.join(f'(x = {v})' for v in vals)
+            try:
+                r = c2.let(dict(x='w'), c2.add_expr(fml))
+                got = sorted(d['w'] for d in c2.pick_iter(r, care_vars=['w']))
+                rp = a2.replace_with_primed(['x'], a2.add_expr(fml))
+                gotp = sorted(d["x'"] for d in a2.pick_iter(rp, care_vars=["x'"]))
+                back = a2.replace_with_unprimed(['x'], rp) == a2.add_expr(fml)
+            except Exception as e:
+                fails.append(dict(name='renaming of wide variables runs', formula=fml, error=repr(e)[:160], backend=backend))
+                continue
+            if (got != sorted(vals) or gotp != sorted(vals) or not back) and len(fails) < 6:
+                fails.append(dict(name='let(x := w) / replace_with_primed on variables of 11 bits: the same values of the other variable',
+                                  formula=fml, renamed=str(got), primed=str(gotp), unprime_gives_back=back, backend=backend))
         return dict(records=[], stats=dict(), functions={}, bounded=dict(evaluations=n, backend=backend, failures=fails[:6]))
     return run
